@@ -268,6 +268,7 @@ class BMSMap(Map[BMSNoteList, BMSHitList, BMSHoldList, BMSBpmList], BMSMapMeta):
                 Snap(0, 0, DEFAULT_METRONOME),
             )
         ]
+        objs = [[] for _ in range(MAX_KEYS)]
         hits = [[] for _ in range(MAX_KEYS)]
         holds = [[] for _ in range(MAX_KEYS)]
         time_sig = {}
@@ -318,28 +319,25 @@ class BMSMap(Map[BMSNoteList, BMSHitList, BMSHoldList, BMSBpmList], BMSMapMeta):
                         )
                     elif channel in config.keys():
                         column = int(config[channel])
+                        objs[column].append((Snap(measure, beat, None), pair))
 
-                        if pair == self.ln_end_channel:
-                            try:
-                                # Yield LN Head from Hits
-                                prev_hit = hits[column].pop(-1)
-                                holds[column].append(
-                                    Hold(
-                                        hit=prev_hit,
-                                        sample=prev_hit.sample,
-                                        snap=Snap(measure, beat, None),
-                                    )
-                                )
-                            except IndexError:
-                                raise Exception(
-                                    f"Failed to match LN Tail on " f"Column {column}."
-                                )
-                        else:
-                            # Else it's a note
-                            sample = self.samples.get(pair, b"")
-                            hits[column].append(
-                                Hit(sample=sample, snap=Snap(measure, beat, None))
-                            )
+        # An LN Tail closes the preceding object of its column in time,
+        # whatever order the lines of the file came in.
+        for column, objs_col in enumerate(objs):
+            for snap, pair in sorted(objs_col, key=lambda x: x[0]):
+                if pair == self.ln_end_channel:
+                    try:
+                        # Yield LN Head from Hits
+                        prev_hit = hits[column].pop(-1)
+                        holds[column].append(
+                            Hold(hit=prev_hit, sample=prev_hit.sample, snap=snap)
+                        )
+                    except IndexError:
+                        raise Exception(f"Failed to match LN Tail on Column {column}.")
+                else:
+                    # Else it's a note
+                    sample = self.samples.get(pair, b"")
+                    hits[column].append(Hit(sample=sample, snap=snap))
         #
         # measures = [*time_sig.keys(), -1]
         # for measure0, measure1 in zip(measures[:-1], measures[1:]):
